@@ -78,6 +78,11 @@ Definition table : list (string * (sx -> sx)) := [
       | Some p, Some q => L [sx_opt sx_str (relpath (un_fl (nth_sx 0 a)) p q (un_str (nth_sx 3 a)) (un_bool (nth_sx 4 a)))]
       | _, _ => L []
       end);
+  ("path.symlink_target", fun a =>
+      match ev (nth_sx 1 a), ev (nth_sx 2 a) with
+      | Some p, Some q => L [sx_opt sx_str (symlink_target (un_fl (nth_sx 0 a)) p q)]
+      | _, _ => L []
+      end);
   ("path.realize", fun a =>
       sx_opt (fun p => sx_str (realize (un_fl (nth_sx 0 a)) (vars_str (nth_sx 2 a)) (un_optstr (nth_sx 3 a))
                                        (un_bool (nth_sx 4 a)) (un_bool (nth_sx 5 a)) (un_bool (nth_sx 6 a)) p))
